@@ -172,7 +172,7 @@ class HyperPrimitive(symbolic.Object, HyperValue):
     new_value = object.__new__(self.__class__)
     new_value.__init__(   # pylint: disable=unexpected-keyword-arg
         allow_partial=self._allow_partial, sealed=self._sealed, **kwargs)
-    return new_value
+    return new_value.set_accessor_writable(self._accessor_writable)
 
 
 _TLS_KEY_DYNAMIC_EVALUATE_FN = 'dynamic_evaluate_fn'
